@@ -130,6 +130,9 @@ def build(shape, gin, lists_on='target'):
     rec = {'named': named, 'args': args, 'kw': kw, 'scope': gin.current_scope_str(),
            'n': len(mod.LOG)}
     mod.LOG.append(rec)
+    if shape.get('read_operative'):
+      # the body looks at the operative config (the usual "log the config from inside train()")
+      rec['operative_inside'] = gin.operative_config_str()
     if shape.get('mutate_scope'):
       # user code may do what it likes with the list current_scope() hands out
       handed_out = gin.current_scope()
